@@ -68,6 +68,14 @@ def generate(seed, tier):
                 continue
             key = 'C14|transpose|%s|%dx%d' % (tk, m, n)
             cases[key] = Case(key, 'VP_CASE("@KEY@", vp::c14::transpose_case<%s,%d,%d>);' % (tn, m, n))
+    # block classes of the hand-written b x b transpose kernels (b = 4, 8, 16 floats / 2, 4, 8 doubles): exactly one block, one block plus a
+    # remainder in either direction, several blocks plus remainder -- always present, for both real types
+    for b in (2, 4, 8, 16):
+        for (m, n) in [(b, b), (b, b + 1), (b + 3, b), (2 * b, 2 * b + 1), (2 * b + 1, b)] + ([] if quick else [(3 * b, 2 * b), (b - 1, b), (b, b - 1), (2 * b + 1, 2 * b + 1)]):
+            for tn, tk in TYPES[:2] if quick else TYPES[:4]:
+                if m >= 1 and n >= 1:
+                    key = 'C14|transpose|%s|%dx%d' % (tk, m, n)
+                    cases[key] = Case(key, 'VP_CASE("@KEY@", vp::c14::transpose_case<%s,%d,%d>);' % (tn, m, n))
     for tn, tk in TYPES[:4]:
         for (b, j) in [(2, 2), (3, 3), (2, 4), (3, 5), (2, 8)]:
             key = 'C14|transpose-batched|%s|%dx%dx%d' % (tk, b, j, j)
